@@ -586,12 +586,37 @@ func (c *Ctx) c05Values() error {
 		n = 60000
 	}
 	r := c.RNG
-	for i := 0; i < n; i++ {
+	// a systematic family first: a short-circuit operator whose right operand contains arithmetic with a
+	// constant or between variables (code the peephole passes shorten), followed by a further operator
+	var family []*texpr
+	lf := func(s string, t byte) *texpr { return &texpr{leaf: s, typ: t} }
+	for _, o1 := range []string{"&&", "||"} {
+		for _, o2 := range []string{"&&", "||", "==", "!="} {
+			for _, ar := range []string{"-", "+", "*"} {
+				for _, rhs := range []*texpr{lf("1", 'i'), lf("b", 'i')} {
+					cmp := &texpr{op: "<", l: &texpr{op: ar, l: lf("a", 'i'), r: rhs, typ: 'i'}, r: lf("2", 'i'), typ: 'b'}
+					inner := &texpr{op: o1, l: lf("p", 'b'), r: cmp, typ: 'b'}
+					// comparison binds tighter than && and ||: the inner operator needs parentheses under == / !=
+					inner.par = o2 == "==" || o2 == "!=" || (o1 == "||" && o2 == "&&")
+					family = append(family, &texpr{op: o2, l: inner, r: lf("q", 'b'), typ: 'b'})
+					inner2 := &texpr{op: o1, l: lf("p", 'b'), r: cmp, typ: 'b', par: true}
+					family = append(family, &texpr{op: o2, l: lf("q", 'b'), r: inner2, typ: 'b'})
+				}
+			}
+		}
+	}
+	for i := 0; i < n+len(family); i++ {
 		typ := byte('i')
 		if r.Bool() {
 			typ = 'b'
 		}
-		e := genT(r, typ, 1+r.Intn(4))
+		var e *texpr
+		if i < len(family) {
+			e, typ = family[i], 'b'
+			c.Rep.Count("value-short-circuit-family")
+		} else {
+			e = genT(r, typ, 1+r.Intn(4))
+		}
 		if e.constSubtree() {
 			c.Rep.Count("value-skip-const-subtree")
 			continue
